@@ -123,6 +123,43 @@ def check_op(inp):
     return None
 
 
+def check_big(inp):
+    """SIZE: the same four operations on a graph with hundreds to thousands of nodes (km.big_structure)."""
+    from .c12 import expand_big
+    f = check_op(expand_big(dict(inp, X=_big_X(inp))))
+    if f is not None:
+        f.input = inp                      # report the compact description
+        f.check = 'big'
+    return f
+
+
+def _big_X(inp):
+    N = inp['N']
+    return {0: [0], 1: [N // 2], 2: [N], 3: [0, N], 4: list(range(0, N // 2)), 5: list(range(N // 3, N + 1))}[inp['xsel']]
+
+
+def big_shard(st, shard, nshards, payload):
+    from .. import km
+    i = -1
+    for shape in km.BIG_SHAPES:
+        for N in payload['Ns']:
+            for op, xsel in (('reach', 0), ('reach', 1), ('reach', 3), ('reverse', 0), ('subgraph', 4), ('subgraph', 5), ('clone', 0)):
+                i += 1
+                if i % nshards != shard:
+                    continue
+                inp = {'big': shape, 'N': N, 'op': op, 'xsel': xsel, 'how': i % 3, 'naming': ('int', 'str', 'tuple')[(i // 3) % 3],
+                       'via': ('ctor', 'incremental', 'kripke')[i % 3] if shape != 'never' else 'ctor', 'xtype': ('list', 'set', 'tuple')[i % 3]}
+                st.evaluations += 1
+                st.nontrivial += 1
+                st.bump('size: op=%s' % op)
+                if xsel == 0:
+                    st.sample(inp, cls='big-' + shape)
+                f = check_big(inp)
+                if f is not None and st.failure is None:
+                    st.failure = f
+                    return
+
+
 def check_history(inp):
     """Every reach / reverse / subgraph / clone answer along an add_node/add_edge/query history on ONE
     graph object is exact for the graph as it is at that moment, and no query changes it."""
@@ -135,7 +172,7 @@ def check_history(inp):
 
 
 CHECKS = {'reach': check_op, 'reverse': check_op, 'subgraph': check_op, 'clone': check_op,
-          'history': check_history}
+          'history': check_history, 'big': check_big}
 
 
 def replay(ctx, rec):
@@ -291,6 +328,13 @@ def run(ctx):
         return
 
     f = core.run_random(ctx, random_shard, 2000, 20000)
+    if f is not None:
+        ctx.violation(f)
+        return
+
+    bp = {'Ns': ctx.pick([1300], [500, 1300, 3500])}
+    ctx.scopes.append('size: 8 shapes with %s nodes x reach from the first / middle / first+last node, reverse, two subgraphs, clone' % [n_ + 1 for n_ in bp['Ns']])
+    f = core.run_sharded(ctx, big_shard, bp)
     if f is not None:
         ctx.violation(f)
         return
